@@ -340,29 +340,88 @@ func (g *GenStore) objText(kind, name string, skipMapValue bool) string {
 // attribute-map only the lines the tool does not manage: it documents
 // "map-value" lines as compared), unmodelled lines of the webvpn block.
 func (g *GenStore) frame(s *State, sc Scope) []string {
+	return s.VPNFrameOf(sc).lines(s)
+}
+
+// VPNFrame fixes, on the initial device state, which VPN objects are
+// outside Netspoc's scope; Text then renders exactly those objects of a
+// later state (an object that only becomes unreferenced during the script
+// does not join the set).
+type VPNFrame struct {
+	sc    Scope
+	keys  []string
+	reach map[string]bool
+}
+
+func (s *State) VPNFrameOf(sc Scope) *VPNFrame {
+	f := &VPNFrame{sc: sc}
+	g := s.Gen
 	if g.empty() {
-		return nil
+		return f
 	}
-	reach := g.reach(s, sc)
-	prot := g.protectedSet(s, sc, reach)
+	f.reach = g.reach(s, sc)
+	prot := g.protectedSet(s, sc, f.reach)
+	f.keys = sortedKeys(prot)
+	return f
+}
+
+func (f *VPNFrame) lines(s *State) []string {
+	g := s.Gen
 	var out []string
 	for _, intf := range sortedKeys(g.CryptoIf) {
-		if !sc.Intfs[intf] {
+		if !f.sc.Intfs[intf] {
 			out = append(out, "crypto map "+g.CryptoIf[intf]+" interface "+intf)
 		}
 	}
-	for _, key := range sortedKeys(prot) {
+	for _, key := range f.keys {
 		kind, name, _ := strings.Cut(key, ":")
 		if kind == kACL {
 			continue // ACLs are protected through State.Protected
 		}
-		out = append(out, g.objText(kind, name, kind == kLDAP && reach[key]))
+		// "map-value" lines of an attribute map are documented as compared
+		// (they name group-policies); the rest of the map is never changed.
+		out = append(out, key+" = "+g.objText(kind, name, kind == kLDAP))
 	}
 	for _, l := range g.WebvpnOther {
 		out = append(out, "webvpn: "+l)
 	}
 	return out
 }
+
+// Text renders the frame objects as they are in state s.
+func (f *VPNFrame) Text(s *State) string { return strings.Join(f.lines(s), "\n") }
+
+// SharedChanged reports whether every frame object whose text differs
+// between states a and b is also reachable from a managed anchor of the
+// initial state (shared between managed and unmanaged content), and names
+// the changed objects.
+func (f *VPNFrame) SharedChanged(a, b *State) (bool, []string) {
+	var changed []string
+	all := true
+	for _, key := range f.keys {
+		kind, name, _ := strings.Cut(key, ":")
+		if kind == kACL {
+			continue
+		}
+		if a.Gen.objText(kind, name, kind == kLDAP) != b.Gen.objText(kind, name, kind == kLDAP) {
+			changed = append(changed, key)
+			all = all && f.reach[key]
+		}
+	}
+	return all && len(changed) > 0, changed
+}
+
+// Keys lists the objects of the frame as "kind:name".
+func (f *VPNFrame) Keys() []string { return f.keys }
+
+// HasObj reports whether the state defines the object "kind:name".
+func HasObj(s *State, key string) bool {
+	kind, name, _ := strings.Cut(key, ":")
+	return s.Gen.get(kind, name) != nil
+}
+
+// Empty reports whether no VPN object is outside Netspoc's scope.
+func (f *VPNFrame) Empty() bool { return len(f.keys) == 0 }
 
 // protectedACLs are the ACLs that VPN objects outside Netspoc's scope use.
 func (g *GenStore) protectedACLs(s *State, sc Scope) []string {
@@ -392,6 +451,11 @@ func (g *GenStore) protectedSet(s *State, sc Scope, reach map[string]bool) map[s
 		prot[key] = true
 		kind, name, _ := strings.Cut(key, ":")
 		if kind == kACL {
+			return
+		}
+		if kind == kLDAP {
+			// The only references of an attribute map are its "map-value"
+			// lines, which are managed content.
 			return
 		}
 		if o := g.get(kind, name); o != nil {
